@@ -15,6 +15,7 @@ var end = []string{"end"}
 
 var properties = map[string][]harnessSpec{
 	"C13": {
+		{Name: "cmd.VerifC13ListCmd", Marks: end},
 		{Name: "op.VerifC13Scale", Marks: []string{"end", "supported", "rejected", "relative-supported"}},
 		{Name: "op.VerifC13TwoScales", Marks: end},
 		{Name: "op.VerifC13Listing", Marks: end},
@@ -35,6 +36,7 @@ var properties = map[string][]harnessSpec{
 		{Name: "note.VerifC15ParseDegree", Solver: "cvc5-int", Quick: map[string]int{"C15.digits": 2}, Thorough: map[string]int{"C15.digits": 3}, Marks: end},
 		{Name: "cmd.VerifC15DescribeCmd", Marks: end},
 		{Name: "desc.VerifC15Describe", Quick: map[string]int{"C15.chords": 4}, Thorough: map[string]int{"C15.chords": 46}, Marks: end},
+		{Name: "desc.VerifC15DescribeHistory", Marks: end},
 		{Name: "note.VerifC10DegreeCodec", Quick: map[string]int{"C10.maxNumber": 99}, Thorough: map[string]int{"C10.maxNumber": 999}, Marks: end},
 	},
 	"C01": {
@@ -46,6 +48,7 @@ var properties = map[string][]harnessSpec{
 		{Name: "play.VerifC01Pitch", Quick: map[string]int{"C01.mode": 2, "C01.maxDegree": 8}, Thorough: map[string]int{"C01.mode": 2, "C01.maxDegree": 22}, Marks: []string{"end", "rejected"}},
 	},
 	"C02": {
+		{Name: "cmd.VerifC02PlainIntegers", Marks: end},
 		{Name: "play.VerifC01WriteSequence", Quick: map[string]int{"C01.maxInstances": 2}, Thorough: map[string]int{"C01.maxInstances": 3}, Marks: end},
 		{Name: "midix.VerifC02NoteStep", Quick: map[string]int{"C02.maxTracks": 3, "C02.maxKeys": 4}, Thorough: map[string]int{"C02.maxTracks": 4, "C02.maxKeys": 6}, Marks: end},
 		{Name: "midix.VerifC02TwoNotes", Quick: map[string]int{"C02.maxTracks2": 3}, Thorough: map[string]int{"C02.maxTracks2": 4}, Marks: end},
@@ -164,6 +167,8 @@ var properties = map[string][]harnessSpec{
 	},
 	"C17": {
 		{Name: "desc.VerifC17Diatonic", Marks: end},
+		// the key the pipeline's `write --key K` plays in is the key in force at each chord — also when it arrives on a rest
+		{Name: "play.VerifC01WriteSequence", Quick: map[string]int{"C01.maxInstances": 2}, Thorough: map[string]int{"C01.maxInstances": 3}, Marks: end},
 	},
 	"C06": {
 		{Name: "midix.VerifC06AddStep", Quick: map[string]int{"C06.maxTracks": 8}, Thorough: map[string]int{"C06.maxTracks": 32}, Marks: end},
